@@ -29,4 +29,4 @@ For EACH change deliver, under {wt}/../seed-{pid}-<k>/ (k = 1..{n}; create the d
   1. patch.diff — `git diff` of ONLY the source change (no test files), applicable with `git apply` to a clean tree at the same commit.
   2. a demonstration: a Go test file (name it demo_test.go and say in which package directory of the tree it must be placed) or a small main program, that FAILS with the change applied and PASSES on the unchanged tree. Verify both directions yourself with the wrapper above.
   3. meta.json with keys: property ("{pid}"), summary (what was changed and why it breaks the property), needs (what specific input/sequence/interleaving is needed to manifest), demo_location (package dir for demo_test.go), commands (what you ran to confirm: build, full suite, demo with and without the change).
-After saving each patch, restore your worktree to clean (`git -C {wt} checkout -- . && git -C {wt} clean -fd`) before the next one. When done, reply with a short summary of each change (files touched, idea) and the paths of the artefacts. Do not commit anything.""")
+After saving each patch, restore your worktree to clean (`git -C {wt} checkout -- . && git -C {wt} clean -fd`) before the next one. When done, reply with a short summary of each change (files touched, idea) and the paths of the artefacts. Do not commit anything. IMPORTANT: never use `git stash` (the stash is shared between worktrees of this repository and other agents work in parallel) - save your change with `git diff > file` and use `git apply` / `git apply -R` / `git checkout -- .` instead.""")
